@@ -3,6 +3,7 @@ package main
 // World: loaded program (go/packages + go/ssa, naive form) and contracts.
 
 import (
+	"regexp"
 	"fmt"
 	"go/token"
 	"go/types"
@@ -33,6 +34,7 @@ type World struct {
 	exprText  map[*ssa.Function]map[ssa.Value]string
 	loopOrds  map[*ssa.Function]map[*ssa.BasicBlock]int
 	autoInline map[string]bool
+	Findings  map[string]Finding
 }
 
 func loadWorld(repoDir, libDir string, patterns []string, overlay map[string][]byte) (*World, error) {
@@ -58,7 +60,7 @@ func loadWorld(repoDir, libDir string, patterns []string, overlay map[string][]b
 	}
 	prog, spkgs := ssautil.Packages(pkgs, ssa.NaiveForm|ssa.GlobalDebug)
 	w := &World{Prog: prog, Pkgs: pkgs, SSAPkgs: map[string]*ssa.Package{}, TypesPkgs: map[string]*types.Package{}, funcs: map[string]*ssa.Function{}, RepoDir: repoDir,
-		autoInline: map[string]bool{}, exprText: map[*ssa.Function]map[ssa.Value]string{}, loopOrds: map[*ssa.Function]map[*ssa.BasicBlock]int{}}
+		autoInline: map[string]bool{}, Findings: map[string]Finding{}, exprText: map[*ssa.Function]map[ssa.Value]string{}, loopOrds: map[*ssa.Function]map[*ssa.BasicBlock]int{}}
 	pkgDirs := map[string]string{}
 	for i, sp := range spkgs {
 		if sp == nil {
@@ -86,6 +88,7 @@ func loadWorld(repoDir, libDir string, patterns []string, overlay map[string][]b
 	if err != nil {
 		return nil, err
 	}
+	w.resolveContractKeys()
 	w.shapes = newShapeCache(w.C.OpaqueTys)
 	// index functions of the loaded packages (those with bodies)
 	for _, sp := range w.SSAPkgs {
@@ -224,4 +227,46 @@ func (w *World) textOf(fn *ssa.Function) map[ssa.Value]string {
 	m := exprTextMap(fn)
 	w.exprText[fn] = m
 	return m
+}
+
+var methKeyRe = regexp.MustCompile(`^\((\*?)([\w./\-]+)\.(\w+)\)\.(.+)$`)
+var funcKeyRe = regexp.MustCompile(`^([\w./\-]+)\.([\w$]+)$`)
+
+// resolveContractKeys rewrites keys written with an import name (crypto.PrivKey) to full package paths.
+func (w *World) resolveContractKeys() {
+	resolve := func(q, from string) string {
+		if self := w.TypesPkgs[from]; self != nil && !strings.Contains(q, "/") {
+			for _, imp := range self.Imports() {
+				if imp.Name() == q {
+					return imp.Path()
+				}
+			}
+		}
+		if _, ok := w.TypesPkgs[q]; ok {
+			return q
+		}
+		if _, ok := w.TypesPkgs[modPath+"/"+q]; ok {
+			return modPath + "/" + q
+		}
+		return q
+	}
+	for _, k := range sortedKeys(w.C.Funcs) {
+		fc := w.C.Funcs[k]
+		nk := k
+		if m := methKeyRe.FindStringSubmatch(k); m != nil {
+			nk = "(" + m[1] + resolve(m[2], fc.PkgPath) + "." + m[3] + ")." + m[4]
+		} else if m := funcKeyRe.FindStringSubmatch(k); m != nil {
+			nk = resolve(m[1], fc.PkgPath) + "." + m[2]
+		}
+		if nk != k {
+			delete(w.C.Funcs, k)
+			fc.Key = nk
+			w.C.Funcs[nk] = fc
+		}
+	}
+	for f, t := range w.C.FuncFields {
+		if m := methKeyRe.FindStringSubmatch(t); m != nil {
+			w.C.FuncFields[f] = "(" + m[1] + resolve(m[2], "") + "." + m[3] + ")." + m[4]
+		}
+	}
 }
